@@ -1,5 +1,5 @@
 #!/bin/bash
-# tools/try_seed.sh <patch.diff> <ID> [tier]   apply a seeded change to /repo, run the check, undo it.
+# tools/try_seed.sh <patch.diff> <ID> [tier]   apply a seeded change to /repo, run the check, undo it, rebuild.
 set -u
 PATCH="$1"; ID="$2"; TIER="${3:-quick}"
 if ! git -C /repo diff --quiet; then echo "/repo has uncommitted changes"; exit 3; fi
@@ -8,3 +8,6 @@ git -C /repo apply "$PATCH" || { echo "patch does not apply"; exit 3; }
 git -C /repo checkout -- . 
 grep -E "^(VIOLATION|KNOWN-FINDING|MACHINERY|property=)" /tmp/try_seed.out | cut -c1-400
 echo "exit=$RC"
+# rebuild the harness against the restored tree so that no stale binary is left behind
+(cd /verif/harness && cargo build --release --offline --workspace >/dev/null 2>&1)
+find /verif/replays -mindepth 1 -delete 2>/dev/null
